@@ -15,6 +15,9 @@ use crate::lifecycle::{Kind, Variant};
 enum Cause {
     PreStartErr,
     PreStartPanic,
+    /// pre_start panics in its synchronous prelude (the callback is written in the explicit `fn -> impl Future`
+    /// form): there is no future yet that the runtime could guard, the panic unwinds through the start-up task
+    PreludePanic,
     NameTaken,
     KilledDuringStart,
     SupervisorDraining,
@@ -121,6 +124,9 @@ async fn run(sc: Sc) -> Outcome {
         Cause::PreStartErr => pre.push(Step::Err("nope")),
         Cause::PreStartPanic => pre.push(Step::Panic("nope-panic")),
         _ => {}
+    }
+    if sc.cause == Cause::PreludePanic {
+        pre.insert(0, Step::Panic("prelude"));
     }
     let prog = Prog { pre_start: pre, ..Default::default() };
     let a = args("X", prog, &log);
@@ -475,6 +481,17 @@ pub fn plan(tier: &str) -> Plan {
                     let sc = Sc { kind, variant, cause, effect };
                     units.push(Unit::explore(Job::new(format!("c08/{}", sc.name()), cfg.clone(), Some(bound), body(sc))));
                 }
+            }
+        }
+    }
+    // pre_start panics before it has produced a future (instant spawns: the panic ends the start-up task only)
+    {
+        let mut c = cfg.clone();
+        c.tolerate_lib_panics = true;
+        for variant in [Variant::Instant, Variant::LinkedInstant] {
+            for effect in [Effect::None, Effect::QueuedCall] {
+                let sc = Sc { kind: Kind::Send, variant, cause: Cause::PreludePanic, effect };
+                units.push(Unit::explore(Job::new(format!("c08/{}", sc.name()), c.clone(), Some(bound), body(sc))));
             }
         }
     }
